@@ -10,6 +10,13 @@ from encode import prep_bp
 
 REGISTRY = {}
 
+# the clauses each property judges (Refine.tla evaluates all of them; only these can FAIL in a run of that property)
+CLAUSES = {
+    "C01": ["C01_value", "C01_type", "C01_settles"],
+    "C02": ["C02_bag", "C01_value", "C01_type", "C01_settles"],
+    "C20": ["C20_exposed", "C20_label", "C20_input", "C01_value", "C02_bag"],
+}
+
 
 def prop(pid):
     def deco(fn):
@@ -104,7 +111,7 @@ def run_refine(ctx, progs, consts, module="Refine", cfg=None, opts=None, batch_s
     ctx.add("evaluations", len(progs))
     if not items:
         raise Machinery("no program of the corpus slice compiled (%d tried)" % len(progs))
-    c = {"Strict": False, "DomCap": 300, "Seed": ctx.seed}
+    c = {"Strict": False, "DomCap": 300, "Seed": ctx.seed, "Clauses": set(CLAUSES.get(ctx.pid, ()))}
     c.update(consts or {})
     br = refine.run_batches(ctx.wd, module, cfg, items, c, batch_size=batch_size, timeout=timeout)
     if br.errors:
@@ -118,6 +125,9 @@ def run_refine(ctx, progs, consts, module="Refine", cfg=None, opts=None, batch_s
         if s is None:
             raise Machinery("record %s has no SUMMARY line (TLC never reached the postcondition)" % it["id"])
         inits, checked, undef, corner = int(s[0]), int(s[1]), int(s[2]), int(s[3])
+        amb = int(s[7]) if len(s) > 7 else 0
+        hist = it.get("mode") == "hist"
+        ctx.add("raced_states_not_judged", amb)
         unsup = s[5].strip() if len(s) > 5 else "{}"
         ctx.add("valuations_explored", inits)
         ctx.add("settled_states_checked", checked)
@@ -128,7 +138,7 @@ def run_refine(ctx, progs, consts, module="Refine", cfg=None, opts=None, batch_s
         if inits < 1:
             raise Machinery("record %s: no initial state was generated" % it["id"])
         failed = any(f[0] == it["id"] for f in br.fails) or any(k[0] == it["id"] for k in br.known)
-        if checked + undef + corner != inits and not failed:
+        if not hist and checked + undef + corner != inits and not failed:
             raise Machinery("record %s: %d valuations but %d settled states accounted for" % (it["id"], inits, checked + undef + corner))
         if checked == 0:
             vacuous += 1
